@@ -135,7 +135,7 @@ type genCtx struct {
 	backs   int
 }
 
-var errLeaves = []string{"simple", "div0", "type", "unbound"}
+var errLeaves = []string{"simple", "div0", "type", "unbound", "undef"}
 
 func (g *genCtx) leaf() Node {
 	x := g.r.Intn(100)
@@ -241,7 +241,13 @@ func (g *genCtx) node(depth int) Node {
 	switch x := g.r.Intn(100); {
 	case x < 22:
 		n := Node{K: "uwp", ID: id, CErr: g.r.Pct(8)}
-		n.Kids = g.kids(depth-1, 2)
+		if g.r.Pct(25) {
+			// the protected form is the kid itself, not a progn around it
+			n.Direct = true
+			n.Kids = g.kids(depth-1, 1)
+		} else {
+			n.Kids = g.kids(depth-1, 2)
+		}
 		return n
 	case x < 34:
 		name := fmt.Sprintf("b%d", id)
@@ -466,6 +472,16 @@ func (n *Node) render(dir string, b *strings.Builder) {
 		if n.CErr {
 			cerr = " (sim-emit \"signal\" \"simple\") (error \"error in cleanup\")"
 		}
+		if n.Direct && len(n.Kids) == 1 {
+			// the enter marker comes right before the form; the interrupt is
+			// not delivered on unwind-protect's own step (see run)
+			pre, form := "", kid(0)
+			if k := n.Kids[0]; k.K == "err" {
+				pre, form = fmt.Sprintf("(sim-emit \"signal\" \"%s\") ", k.Name), errForm(k.Name)
+			}
+			fmt.Fprintf(b, "(progn %s(sim-emit \"enter-d\" %d) (unwind-protect %s (sim-emit \"cleanup\" %d) (sim-emit \"cleanup2\" %d)%s))", pre, n.ID, form, n.ID, n.ID, cerr)
+			break
+		}
 		// two cleanup forms: the second must follow the first, once
 		fmt.Fprintf(b, "(unwind-protect (progn (sim-emit \"enter\" %d) %s) (sim-emit \"cleanup\" %d) (sim-emit \"cleanup2\" %d)%s)", n.ID, all(), n.ID, n.ID, cerr)
 	case "lock":
@@ -504,6 +520,10 @@ func errForm(kind string) string {
 		return "(car 5)"
 	case "unbound":
 		return "(+ 1 c07-never-bound-variable)"
+	case "undef":
+		// the operator cannot be resolved: the error comes from looking the
+		// function up, before anything of the form is evaluated
+		return "(c07-never-defined-function 1)"
 	}
 	return "(error \"plain error\")"
 }
@@ -646,6 +666,11 @@ func (e *engine) run(c *Case, f *Fault) runOut {
 			if strings.HasPrefix(text, "enter") || strings.HasPrefix(text, "cs-enter") {
 				out.markerSteps[out.evals-1] = true
 			}
+			if strings.HasPrefix(text, "enter-d") {
+				// the next step is unwind-protect's own: an interrupt there
+				// comes before the cleanup is armed
+				out.markerSteps[out.evals+1] = true
+			}
 		}
 	}}
 	lispsim.Begin(lw)
@@ -782,7 +807,7 @@ func (c *Case) judge(out runOut, f *Fault) *harness.Violation {
 			}
 		case "interrupt":
 			interrupted = true
-		case "enter":
+		case "enter", "enter-d":
 			stack = append(stack, fs[1])
 		case "cleanup":
 			if len(stack) > 0 && stack[len(stack)-1] == fs[1] {
